@@ -378,7 +378,13 @@ pub fn rich(rng: &mut Rng, o: &RichOpts, layout: &Layout) -> DocSpec {
             ("Limits", Val::ints(&[0, 2])),
             ("Nums", Val::Arr(vec![Val::Int(0), Val::dict(vec![("S", Val::name("r"))]), Val::Int(2), Val::dict(vec![("S", Val::name("D")), ("St", Val::Int(1)), ("P", Val::Str(b"p-".to_vec()))])])),
         ]));
-        cat.push(("PageLabels", Val::dict(vec![("Kids", Val::Arr(vec![Val::r(leaf)]))])));
+        // the labels either in a leaf of their own or directly in the catalog (then their strings
+        // are part of what a typed load of the catalog reads)
+        if rng.coin() {
+            cat.push(("PageLabels", Val::dict(vec![("Kids", Val::Arr(vec![Val::r(leaf)]))])));
+        } else {
+            cat.push(("PageLabels", Val::dict(vec![("Nums", Val::Arr(vec![Val::Int(0), Val::dict(vec![("S", Val::name("D")), ("P", Val::Str(b"A-".to_vec()))])]))])));
+        }
     }
     if o.outlines {
         let outlines = b.reserve();
